@@ -63,7 +63,7 @@ PROPS["C09"] = dict(level="exploration", race=False, tiers={
     # the "race" stages re-run part of the workload in a -race build: a data race between two
     # MSM workers is a schedule on which the result can be wrong even if no interleaving at
     # synchronisation-point granularity shows it
-    "quick": [dict(variant="", runs=6000, budget_s=60), dict(variant="", runs=1200, budget_s=35, race=True)],
+    "quick": [dict(variant="", runs=12000, budget_s=60), dict(variant="", runs=2000, budget_s=35, race=True)],
     "thorough": [dict(variant="", runs=400000, budget_s=2400), dict(variant="", runs=60000, budget_s=900, race=True), dict(variant="bigc", runs=60, budget_s=900, workers=1)],
 })
 
@@ -73,12 +73,12 @@ PROPS["C19"] = dict(level="exploration", race=False, tiers={
 })
 
 PROPS["C10"] = dict(level="fault_enumeration", race=False, tiers={
-    "quick": [dict(variant="", runs=160000, budget_s=75)],
+    "quick": [dict(variant="", runs=480000, budget_s=75)],
     "thorough": [dict(variant="enum", runs=2 * 2 * 3 * 2 * 6 * 2400, budget_s=3000), dict(variant="", runs=4000000, budget_s=1500)],
 })
 
 PROPS["C01"] = dict(level="exploration", race=False, race_stage_needs_config=True, tiers={
-    "quick": [dict(variant="", runs=1600, budget_s=80), dict(variant="", runs=160, budget_s=30, race=True)],
+    "quick": [dict(variant="", runs=3000, budget_s=80), dict(variant="", runs=240, budget_s=30, race=True)],
     "thorough": [dict(variant="", runs=120000, budget_s=2700), dict(variant="", runs=8000, budget_s=600, race=True)],
 })
 
@@ -88,7 +88,7 @@ PROPS["C03"] = dict(level="exploration", race=False, race_stage_needs_config=Tru
 })
 
 PROPS["C02"] = dict(level="exploration", race=False, tiers={
-    "quick": [dict(variant="", runs=2000, budget_s=100)],
+    "quick": [dict(variant="", runs=4000, budget_s=90)],
     "thorough": [dict(variant="", runs=60000, budget_s=3300)],
 })
 
